@@ -66,7 +66,6 @@ func ZzC16Push() {
 	if ok {
 		m.ids = append(m.ids, x)
 		m.n++
-		zzAssert(zzEventCountIs("cond-broadcast", 1), "push: waiting consumer woken")
 	}
 	zzCheckInv(r, m, "push")
 	zzCover("push accepted", ok)
@@ -108,7 +107,6 @@ func ZzC16Close() {
 	for i := 0; i < m.size; i++ {
 		zzAssert(r.buffer[i] == nil, "close: all slots emptied")
 	}
-	zzAssert(zzEventCountIs("cond-broadcast", 1), "close: waiting consumer woken")
 	zzAssert(!zzLockHeld(&r.mutex), "close: mutex released")
 	v, ok := r.Pull()
 	zzAssert(!ok, "close: Pull returns false afterwards")
@@ -132,4 +130,22 @@ func ZzC16New() {
 	}
 	zzCover("accepted", err == nil)
 	zzCover("rejected", err != nil)
+}
+
+// wake-up: a consumer blocked in Pull on an empty, open queue is woken by a
+// push and by a close, from every read position (natively checked with a real
+// goroutine; in the engine: the operation must broadcast on the condition variable).
+func ZzC16Wake() {
+	r, m := zzState()
+	zzAssume(m.n == 0)
+	zzAssume(!m.closed)
+	x := zzInt("x")
+	woke := zzWakes(func() { r.Pull() }, func() { r.Push(x) })
+	zzAssert(woke, "a consumer waiting on an empty queue is woken by a push")
+	r2, m2 := zzState()
+	zzAssume(m2.n == 0)
+	zzAssume(!m2.closed)
+	woke2 := zzWakes(func() { r2.Pull() }, func() { r2.Close() })
+	zzAssert(woke2, "a consumer waiting on an empty queue is woken by a close")
+	zzCover("done", true)
 }
